@@ -6,8 +6,8 @@
 (* nested expressions go through (EvaluationProxy -> SU_vector, for const  *)
 (* and for expiring expressions) are not in it.                            *)
 (* A case is (expression kind, statement form, dimension of the operands,  *)
-(* dimension class of the target, k): the k-th allocation performed by the *)
-(* statement fails.  Required, whatever k: if the statement performs fewer *)
+(* dimension class of the target, state of the block cache, k): the k-th   *)
+(* allocation performed by the statement fails.  Required, whatever k: if the statement performs fewer *)
 (* than k allocations it completes with the value of the un-armed          *)
 (* evaluation; otherwise std::bad_alloc propagates (nothing else, and the  *)
 (* process lives), every operand keeps its value bit for bit, the target   *)
@@ -15,15 +15,20 @@
 (* the cache emptied every block was released exactly once.                *)
 (***************************************************************************)
 EXTENDS Integers, TLC, Json
-Exprs == {"-(a+b)", "-(a-b)", "-(a*2)", "-icomm(a,b)", "-acomm(a,b)", "-a.evolve(h,t)", "(a+b)+(a-b)", "(a+b)-(a*2)", "(a+b)*2", "(a+b)+b", "(a+b)-b", "b+(a*2)",
+Exprs == {"a", "a+b", "a*2", "icomm(a,b)", "a.evolve(h,t)",      \* single-level right-hand sides (here for the warm cache states)
+          "-(a+b)", "-(a-b)", "-(a*2)", "-icomm(a,b)", "-acomm(a,b)", "-a.evolve(h,t)", "(a+b)+(a-b)", "(a+b)-(a*2)", "(a+b)*2", "(a+b)+b", "(a+b)-b", "b+(a*2)",
           "(a+b).evolve(h,t)", "(a+b).evolve(h+h,t)", "icomm(a+b,a-b)", "acomm(a*2,b)", "-(-(a+b))", "(a+b)*(a-b)"}
 Forms == {"ctor", "assign-same", "assign-other", "assign-empty", "inc-same", "dec-same"}
 Dims == 2..6
 Ks == 1..4
+\* state of the per-dimension block cache when the statement starts: cold / one spare block of the TARGET's dimension /
+\* the target's dimension full (a block released now is freed, not cached).  The k-th allocation counts real allocations
+\* only (a block served by the cache cannot fail).
+Warm == 0..2
 VARIABLE c
 Init == c = [e |-> "none"]
 Next == /\ c.e = "none"
-        /\ \E e \in Exprs, f \in Forms, d \in Dims, k \in Ks : c' = [e |-> e, f |-> f, d |-> d, k |-> k]
+        /\ \E e \in Exprs, f \in Forms, d \in Dims, k \in Ks, w \in Warm : c' = [e |-> e, f |-> f, d |-> d, k |-> k, w |-> w]
 Spec == Init /\ [][Next]_c
 Emit == PrintT(<<"EDGE", ToJson(c')>>)
 =============================================================================
